@@ -69,6 +69,7 @@ class ObjMapBase(MapBase):
 
 
 class PSet:
+    __class__ = property(lambda self: set)
     def __init__(self, items=(), base=None, key=None, nonempty=None):
         self.log = []            # ("add", k) | ("del", k)
         self.base = base         # z3 term of the key -> z3 Bool
@@ -156,6 +157,7 @@ def set_shim(*a):
 
 
 class CompList:
+    __class__ = property(lambda self: list)
     """[E(x) for x in L if C(x)] where L has arbitrary content.  entry(x) -> (value, condition) for an arbitrary element."""
 
     def __init__(self, src, f):
